@@ -232,6 +232,10 @@ def add_natives(reg):
             return outs
         raise Unsupported('cipher mode %r of the abstract factory' % (mode,))
     reg.models['native.Factory.new'] = factory_new
+    # the same for a cipher module whose block size is 16 (AES): used where the mode does not look at block_size itself
+    reg.add(ClassContract('native.Factory16', fields={'block_size': ('const', 16), 'MODE_ECB': ('const', MODE_ECB), 'MODE_CBC': ('const', MODE_CBC),
+                                                     'MODE_CTR': ('const', MODE_CTR)}, abstract=True))
+    reg.models['native.Factory16.new'] = factory_new
     # --- strxor
     reg.models['Crypto.Util.strxor.strxor'] = m_strxor
     # --- tag comparison through a randomly keyed BLAKE2s-160
@@ -266,7 +270,10 @@ def add_natives(reg):
     reg.add(Contract(N + 'long_to_bytes', params={'n': 'int', 'blocksize': 'int'},
                      raises={'ValueError': ('iff', 'n < 0 or blocksize < 0')}, result='bytes',
                      ensures={'minimal_len': 'blocksize == 0 ==> (len(result) >= 1 and %s)' % lens,
-                              'one_block': '(blocksize > 0 and n < spec.aead2.pow256(blocksize)) ==> result == i2osp(n, blocksize)'},
+                              'one_block': '(blocksize > 0 and n < spec.aead2.pow256(blocksize)) ==> result == i2osp(n, blocksize)',
+                              # front-padded to a multiple of blocksize: the last block is n mod 256**blocksize
+                              'last_block': 'blocksize > 0 ==> (len(result) >= blocksize and '
+                                            'result[len(result) - blocksize:] == i2osp(n % spec.aead2.pow256(blocksize), blocksize))'},
                      pure=True, assumed='bounded: bounded/bigint.py number.long_to_bytes against int.to_bytes (minimal length; padded to a multiple of blocksize)'))
     return reg
 
@@ -288,4 +295,5 @@ def registry_with_natives():
 
 
 FACTORY = 'obj:native.Factory'
+FACTORY16 = 'obj:native.Factory16'
 NO_PARAMS = ('const', FrozenDict({}))       # cipher_params: no extra keyword for the cipher (pass-through only)
